@@ -130,9 +130,13 @@ PROPS["C09"] = {
     "pkg": "c09", "level": "exploration",
     "jobs": {
         "quick": [{"name": "expiry", "run": "^TestExpiryHistories$", "checks": 48000, "shards": 8, "steps": 40},
-                  {"name": "binary", "run": "^TestBinary", "checks": 48, "shards": 16, "binary": True, "shrinktime": "1s"}],
+                  {"name": "binary", "run": "^TestBinary", "checks": 48, "shards": 16, "binary": True, "shrinktime": "1s"},
+            {"name": "server", "run": "^TestWholeServer$", "checks": 96, "shards": 16},
+        ],
         "thorough": [{"name": "expiry", "run": "^TestExpiryHistories$", "checks": 1200000, "shards": 16, "steps": 60, "timeout": 1700},
-                     {"name": "binary", "run": "^TestBinary", "checks": 1600, "shards": 16, "binary": True, "shrinktime": "1s", "timeout": 1700}],
+                     {"name": "binary", "run": "^TestBinary", "checks": 1600, "shards": 16, "binary": True, "shrinktime": "1s", "timeout": 1700},
+            {"name": "server", "run": "^TestWholeServer$", "checks": 6400, "shards": 16, "timeout": 1700},
+        ],
     },
     "assumptions": [
         "binary jobs run the gostatsd command built from the working tree on the real clock over loopback UDP with the stdout backend; a command that never serves (its port was taken between probe and start) or a datagram that does not arrive excludes the case (counted in the evidence) and is never a violation; a command that exits after it had served is judged (a crash)",
@@ -183,10 +187,12 @@ PROPS["C10"] = {
         "quick": [
             {"name": "patterns", "run": "^TestPatternSemantics$", "checks": 24000, "shards": 2},
             {"name": "stage", "run": "^TestTagStage$", "checks": 48000, "shards": 8},
+            {"name": "server", "run": "^TestWholeServer$", "checks": 96, "shards": 16},
         ],
         "thorough": [
             {"name": "patterns", "run": "^TestPatternSemantics$", "checks": 200000, "shards": 2, "timeout": 1700},
             {"name": "stage", "run": "^TestTagStage$", "checks": 1000000, "shards": 14, "timeout": 1700},
+            {"name": "server", "run": "^TestWholeServer$", "checks": 6400, "shards": 16, "timeout": 1700},
         ],
     },
     "assumptions": [
@@ -227,11 +233,13 @@ PROPS["C14"] = {
         "quick": [
             {"name": "roundtrip", "run": "^TestRoundTrip$", "checks": 9600, "shards": 8},
             {"name": "differential", "run": "^TestIngestDifferential$", "checks": 18000, "shards": 4},
+            {"name": "server", "run": "^TestWholeServer$", "checks": 96, "shards": 16},
         ],
         "thorough": [
             {"name": "roundtrip", "run": "^TestRoundTrip$", "checks": 320000, "shards": 10, "timeout": 1700},
             {"name": "differential", "run": "^TestIngestDifferential$", "checks": 800000, "shards": 6, "timeout": 1700},
             {"name": "fuzz", "kind": "fuzz", "fuzz": "FuzzIngestBody", "time": "180s", "timeout": 500},
+            {"name": "server", "run": "^TestWholeServer$", "checks": 6400, "shards": 16, "timeout": 1700},
         ],
     },
     "assumptions": [
